@@ -29,6 +29,15 @@ type Result struct {
 	Runs     int            `json:"runs,omitempty"` // simulated executions this scenario needed (metamorphic pairs etc.)
 	Scenario *Scenario      `json:"scenario,omitempty"`
 	Sample   interface{}    `json:"sample,omitempty"`
+	// All lists every violation found in this scenario (engines that judge many independent
+	// sub-cases per scenario keep going after the first one); Kind/Site/Detail repeat the first.
+	All []Violation `json:"all,omitempty"`
+}
+
+type Violation struct {
+	Kind   string `json:"kind"`
+	Site   string `json:"site"`
+	Detail string `json:"detail"`
 }
 
 func okResult() Result {
@@ -36,15 +45,23 @@ func okResult() Result {
 }
 
 func (r *Result) Violate(kind, site, detail string) {
+	if len(detail) > 1500 {
+		detail = detail[:1500] + "..."
+	}
+	for _, v := range r.All {
+		if v.Kind == kind && v.Site == site {
+			return // one per fingerprint
+		}
+	}
+	if len(r.All) < 16 {
+		r.All = append(r.All, Violation{kind, site, detail})
+	}
 	if r.Verdict == "violation" {
-		return // keep the first
+		return // Kind/Site/Detail keep the first
 	}
 	r.Verdict = "violation"
 	r.Kind = kind
 	r.Site = site
-	if len(detail) > 1500 {
-		detail = detail[:1500] + "..."
-	}
 	r.Detail = detail
 }
 
